@@ -57,11 +57,13 @@ FLOORS = {"quick": {"evaluations": 1300, "distinct_nontrivial": 1100,
                                  "tsqr_short_blocks": 220, "rank_deficient_or_zero": 180, "einsum_repeated_index": 90,
                                  "einsum_ellipsis": 60, "tensordot_negative_left_axis": 18},
                     "sets": {"einsum_specs": 200}, "max_skipped_fraction": 0.25},
-          "thorough": {"evaluations": 20000, "distinct_nontrivial": 17000,
-                       "counters": {"compared": 19000, "compared_tensordot": 3800, "compared_einsum": 3300,
-                                    "compared_qr_tsqr": 2200, "compared_svd_tsqr": 2200, "tsqr_recursive": 1800,
-                                    "einsum_repeated_index": 1500, "tensordot_negative_left_axis": 300},
-                       "max_skipped_fraction": 0.25}}
+          "thorough": {"evaluations": 20000, "distinct_nontrivial": 16000,
+                       "counters": {"compared": 19000, "compared_tensordot": 3400, "compared_einsum": 3900, "compared_matmul": 2600,
+                                    "compared_qr_tsqr": 2300, "compared_qr_sfqr": 1100, "compared_svd_tsqr": 2400,
+                                    "compared_svd_tsqr-of-transpose": 800, "tsqr_recursive": 1900, "tsqr_short_blocks": 3200,
+                                    "rank_deficient_or_zero": 3000, "einsum_repeated_index": 1500, "einsum_ellipsis": 1000,
+                                    "tensordot_negative_left_axis": 400},
+                       "sets": {"einsum_specs": 2400}, "max_skipped_fraction": 0.25}}
 EXHAUSTIVE_SPACE = ("all chunkings of (3,2)x(2,3) under tensordot axes=1 and axes=([0,1],[1,0]); all 32 row chunkings of a "
                     "(6,2) matrix and all 32 column chunkings of a (2,6) matrix under qr and svd")
 CLAIM = ("Every generated tensor product was computed by the real dask.array and compared with NumPy (shape, dtype, values "
